@@ -2,6 +2,7 @@ package main
 
 import (
 	"fmt"
+	"go/token"
 	"go/types"
 	"os"
 
@@ -163,4 +164,30 @@ func init() {
 			})
 		}
 	}
+}
+
+func init() {
+	debugHooks["guards"] = func(P *Program, M *Model, arg string) {
+		for _, fn := range P.ModFuncs {
+			if !containsStr(FuncName(fn), arg) {
+				continue
+			}
+			fmt.Printf("FUNC %s\n", FuncName(fn))
+			for _, b := range fn.Blocks {
+				fmt.Printf("  block %d (%s) %s\n", b.Index, b.Comment, P.Pos(firstPos(b)))
+				for _, l := range P.BlockGuards(b) {
+					fmt.Printf("      %s [%s]\n", short(l.String()), l.Kind)
+				}
+			}
+		}
+	}
+}
+
+func firstPos(b *ssa.BasicBlock) token.Pos {
+	for _, ins := range b.Instrs {
+		if ins.Pos().IsValid() {
+			return ins.Pos()
+		}
+	}
+	return token.NoPos
 }
